@@ -122,6 +122,33 @@ def cmd_run(mid, props):
     print(mid, "detected by", meta["detected_by"], "| own:", meta["detected_by_own_property_check"])
 
 
+def cmd_harvest(mid):
+    """run the check of the targeted property against the seeded change and keep the (shrunk) failing input as a corpus entry:
+    corpus entries are replayed first on every run"""
+    meta = load(mid)
+    d = os.path.join(SEEDED, mid)
+    prop = meta["property"]
+    wt = worktree("h-" + mid)
+    try:
+        rc, out = sh(["git", "-C", wt, "apply", os.path.join(d, "patch.diff")])
+        assert rc == 0, out
+        env = dict(os.environ, DSW_REPO=wt, PYTHONHASHSEED="0", VERIF_SEARCH_SECONDS="30")
+        rc, out = sh([os.path.join(VERIF, "check"), prop, "--tier", "quick"], cwd=VERIF, env=env)
+        vio = [l for l in out.split("\n") if l.startswith("VIOLATION")]
+        if vio and "replay=" in vio[0] and not vio[0].endswith("no-failing-input-found"):
+            rp = json.load(open(vio[0].split("replay=")[1].split()[0]))
+            if rp.get("cases"):
+                cdir = os.path.join(VERIF, "corpus", prop)
+                os.makedirs(cdir, exist_ok=True)
+                json.dump({"origin": "failing input found against seeded change " + mid, "why": rp.get("why"), "cases": rp["cases"][:1]},
+                          open(os.path.join(cdir, mid + ".json"), "w"), indent=1)
+                print(mid, "harvested")
+                return
+        print(mid, "nothing to harvest")
+    finally:
+        drop(wt)
+
+
 def cmd_table():
     rows = []
     for mid in sorted(os.listdir(SEEDED)):
@@ -148,3 +175,5 @@ if __name__ == "__main__":
         cmd_run(a[1], a[2:] or ALL)
     elif a[0] == "table":
         cmd_table()
+    elif a[0] == "harvest":
+        cmd_harvest(a[1])
